@@ -207,6 +207,68 @@ theorem distinct_declarations_linearizable (sh : Shared) (calls : List Call) (h 
       subst hp; subst hq
       exact h i j ci cj hij hci hcj c ⟨(Call.prog_cells ci).2 c hr, (Call.prog_cells cj).1 c hw⟩
 
+/-- If every program works on PRIVATE copies of the Field objects it renames (what `instFrom` builds when no site is
+    racy), then for EVERY schedule, any number of threads and ANY programs whatsoever, every thread returns / raises
+    exactly what it does alone. -/
+theorem private_copies_linearizable (sh : Shared) (progs : List (List Step)) :
+    Linearizable sh (instFrom (fun _ => true) progs.length 0 progs) := by
+  apply conflict_free_linearizable
+  intro i j p q hij hp hq c hw hr
+  rw [instFrom_get] at hp hq
+  cases hpi : progs[i]? with
+  | none => simp [hpi] at hp
+  | some p0 =>
+    cases hqj : progs[j]? with
+    | none => simp [hqj] at hq
+    | some q0 =>
+      simp only [hpi, hqj, Option.map_some, Option.some.injEq] at hp hq
+      subst hp; subst hq
+      have hi : i < progs.length := (List.getElem?_eq_some_iff.mp hpi).1
+      have hj : j < progs.length := (List.getElem?_eq_some_iff.mp hqj).1
+      obtain ⟨c1, h1⟩ := writeCells_rename _ _ c hw
+      obtain ⟨c2, h2⟩ := readCells_rename _ _ c hr
+      simp only [cellMap, if_true, Nat.zero_add] at h1 h2
+      exact hij (privCell_thread hi hj (h2.symm.trans h1))
+
+/-- THE POSITIVE THEOREM, conditional on the generated table: on a tree whose shared-write table has no unsafe row, the
+    thread programs of ANY concurrent validation calls (collections and multi-field wrappers, any number of threads,
+    same field or different fields, shared item instances or not) are linearizable for EVERY schedule.  The driver runs
+    `modelProgs Generated.sharedWrites`, i.e. the very programs this theorem speaks about, against the real code. -/
+theorem safe_table_linearizable (tbl : List SharedWrite) (h : ∀ r ∈ tbl, r.safe = true)
+    (sites : List (Nat × String)) (sh : Shared) (calls : List Call) :
+    Linearizable sh (modelProgs tbl sites calls) := by
+  have hp : ∀ c, tablePriv tbl sites c = (fun _ => true) c := by
+    intro c
+    simp only [tablePriv, List.all_eq_true, Bool.or_eq_true, Bool.not_eq_true']
+    intro p _
+    right
+    simp only [siteRacy, List.any_eq_false]
+    intro r hr
+    simp [h r hr]
+  unfold modelProgs
+  rw [instFrom_congr _ _ hp]
+  have := private_copies_linearizable sh (calls.map Call.prog)
+  simpa using this
+
+/-- the same with the weaker hypothesis the model actually uses: no row that is unsafe AND read back -/
+theorem no_racy_site_linearizable (tbl : List SharedWrite) (h : ∀ r ∈ tbl, (!r.safe && r.readBack) = false)
+    (sites : List (Nat × String)) (sh : Shared) (calls : List Call) :
+    Linearizable sh (modelProgs tbl sites calls) := by
+  have hp : ∀ c, tablePriv tbl sites c = (fun _ => true) c := by
+    intro c
+    simp only [tablePriv, List.all_eq_true, Bool.or_eq_true, Bool.not_eq_true']
+    intro p _
+    right
+    simp only [siteRacy, List.any_eq_false]
+    intro r hr
+    have := h r hr
+    rw [Bool.and_assoc, this]
+    simp
+  unfold modelProgs
+  rw [instFrom_congr _ _ hp]
+  have := private_copies_linearizable sh (calls.map Call.prog)
+  simpa using this
+
 /-- Clause 1 of C20 holds in the model for EVERY schedule and every set of programs, racy or not: the result of a thread
     only contains values of that thread's own input (the temp structures are thread-private; what the race corrupts is
     WHICH of the thread's own elements is read back, or whether one is found at all). -/
@@ -304,6 +366,49 @@ theorem counter_missing_key_positional :
         [0,0,0,1,1,0]) 0 = some (.raised (.missing "b_0")) ∧
     sequentialResult sh0 (progPos 0 "a" 2 [(1, true), (2, true)]) = some (.ok [1, 2]) := by decide
 
+/-- site `set_field.py:ImmutableSet.__set__`, one item Field instance used by the fields `a` and `b` -/
+theorem counter_missing_key_immutable_set :
+    resultAt (run (Cfg.init sh0 [progISet 0 "a" [(1, true), (2, true)], progISet 0 "b" [(3, true)]]) [0,0,0,0,1,1,0]) 0
+      = some (.raised (.missing "b")) ∧
+    sequentialResult sh0 (progISet 0 "a" [(1, true), (2, true)]) = some (.ok [1, 2, 1, 2]) := by decide
+
+/-- site `multified_wrappers.py:AnyOf.__set__`, one option Field instance used by `a = AnyOf[opt, String]` and
+    `b = AnyOf[opt, String]`: thread 0 (`x.a = 5`) is pre-empted between the option's scratch validation and
+    `matched.__set__(instance, value)`; the value lands under `b` and `instance.__dict__["a"]` raises KeyError -/
+theorem counter_missing_key_anyof :
+    resultAt (run (Cfg.init sh0 [progAnyOf (.const "a") 5 [(0, true), (1, false)],
+        progAnyOf (.const "b") 7 [(0, true), (1, false)]]) [0,0,1,0,0]) 0 = some (.raised (.missing "a")) ∧
+    sequentialResult sh0 (progAnyOf (.const "a") 5 [(0, true), (1, false)]) = some (.ok [5]) := by decide
+
+/-- site `multified_wrappers.py:AllOf.__set__`, one option Field instance used by the fields `a` and `b`: the error of
+    thread 0's invalid `-1` names field `b` -/
+theorem counter_wrong_field_named_allof :
+    resultAt (run (Cfg.init sh0 [progAllOf (.const "a") (-1) [(0, false), (1, true)],
+        progAllOf (.const "b") 7 [(0, true), (1, true)]]) [0,1,0]) 0 = some (.raised (.invalid "b")) ∧
+    sequentialResult sh0 (progAllOf (.const "a") (-1) [(0, false), (1, true)]) = some (.raised (.invalid "a")) := by
+  decide
+
+/-! ### the model follows the table -/
+
+def efvKey : String := "shared-_name:array.py:extract_field_value"
+
+def efvCalls : List Call := [Call.homog 0 "a" true [(10, true)], Call.homog 0 "a" true [(20, true), (21, true), (22, true)]]
+
+/-- the snapshot table without its racy rows: what the translator produces once every validator works on private copies -/
+def repairedTable : List SharedWrite := Pinned.sharedWrites.filter fun r => r.safe || !r.readBack
+
+/-- On the pinned table (extract_field_value listed as racy) the programs the driver runs for `S(a=[10]) ∥ S(a=[20,21,22])`
+    go through ONE shared cell and the counter-schedule silently yields `[20, 20, 22]`; on the repaired table the SAME calls
+    under the SAME schedule go through private copies and both threads get their sequential results. -/
+theorem model_follows_table :
+    resultAt (run (Cfg.init sh0 (modelProgs Pinned.sharedWrites [(0, efvKey)] efvCalls))
+      [1,1,1,1,1,1,1,0,0,0,1,1,1,1,0,0]) 1 = some (.ok [20, 20, 22]) ∧
+    resultAt (run (Cfg.init sh0 (modelProgs repairedTable [(0, efvKey)] efvCalls))
+      [1,1,1,1,1,1,1,0,0,0,1,1,1,1,0,0,0,0]) 1 = some (.ok [20, 21, 22]) ∧
+    resultAt (run (Cfg.init sh0 (modelProgs repairedTable [(0, efvKey)] efvCalls))
+      [1,1,1,1,1,1,1,0,0,0,1,1,1,1,0,0,0,0]) 0 = some (.ok [10]) ∧
+    (∀ r ∈ repairedTable, (!r.safe && r.readBack) = false) := by decide
+
 /-- the full statement is false -/
 theorem C20_statement_false : ¬ C20_statement := by
   intro h
@@ -328,6 +433,19 @@ def knownFindingKeys : List String := [
   "shared-_name:multified_wrappers.py:NotField.__set__"
 ]
 
+/-- does the current working tree still have a racy validator site?  (`false` ⇒ `no_racy_site_linearizable` applies to
+    every program the driver runs; the driver reports this bit) -/
+def currentTreeRacy : Bool := Generated.sharedWrites.any fun r => !r.safe && r.readBack
+
+/-- instance of the positive theorem for the CURRENT working tree: as soon as the translator finds no racy site any more,
+    all concurrent validation calls are linearizable for every schedule -/
+theorem current_tree_linearizable (h : currentTreeRacy = false) (sites : List (Nat × String)) (sh : Shared)
+    (calls : List Call) : Linearizable sh (modelProgs Generated.sharedWrites sites calls) := by
+  apply no_racy_site_linearizable
+  intro r hr
+  simp only [currentTreeRacy, List.any_eq_false] at h
+  simpa using h r hr
+
 /-- every shared write in the CURRENT working tree is either harmless (every thread writes an equivalent value) or a
     listed finding.  A new shared scratch write breaks this obligation. -/
 theorem tables_ok : ∀ r ∈ Generated.sharedWrites, r.safe = true ∨ r.key ∈ knownFindingKeys := by decide
@@ -348,10 +466,12 @@ theorem aliases_nonvacuous : Generated.probedSpellings ≥ 30 ∧ Generated.prob
 /-- the same obligation on the committed snapshot of the table (keeps `Pinned/` compiled and reviewable) -/
 theorem pinned_tables_ok : ∀ r ∈ Pinned.sharedWrites, r.safe = true ∨ r.key ∈ knownFindingKeys := by decide
 
-/-- the table is not empty and really contains the racy site (non-vacuity of `tables_ok`) -/
+/-- the generated table is not empty, and the snapshot of the tree the model was aligned with really contains the racy
+    sites (non-vacuity of `tables_ok`; stated on the snapshot so that a repaired tree does not break it) -/
 theorem tables_nonvacuous :
-    (Generated.sharedWrites.filter fun r => !r.safe).length ≥ 1 ∧
-    (Generated.sharedWrites.any fun r => r.key == "shared-_name:array.py:extract_field_value") = true := by decide
+    Generated.sharedWrites.length ≥ 3 ∧
+    (Pinned.sharedWrites.filter fun r => !r.safe).length ≥ 11 ∧
+    (Pinned.sharedWrites.any fun r => r.key == "shared-_name:array.py:extract_field_value") = true := by decide
 
 /-! ### non-vacuity of the positive theorems -/
 
